@@ -82,6 +82,10 @@ def cases(tier, seed):
             continue
         out.append({"contact": "s2s", "pair": list(pair), "radii": list(radii), "mu": mu, "sep": sep, "rest": rest,
                     "tier": tier, "seed": seed})
+        if sep == "generic" and rest == "default" and all(k in ("RB", "PM") for k in pair):
+            # the same contact with the partners registered in the opposite order
+            out.append({"contact": "s2s", "pair": list(pair), "radii": list(radii), "mu": mu, "sep": sep, "rest": rest,
+                        "tier": tier, "seed": seed, "order": "21"})
     # simplest first: point masses / no friction first
     out.sort(key=lambda c: (c["contact"], c["mu"] > 0, c.get("sub", "") == "RB", "RB" in c.get("pair", [])))
     return out
@@ -392,8 +396,13 @@ def _check_s2s(case, R):
     eN, eF = (None, None) if case["rest"] == "default" else (0.5, 0.25)
     sep = np.array(SEPS[case["sep"]])
     r1, r2 = case["radii"]
-    b = sc.build_s2s(tuple(case["pair"]), (r1, r2), case["mu"], sep, seed, e_N=eN, e_F=eF)
+    b = sc.build_s2s(tuple(case["pair"]), (r1, r2), case["mu"], sep, seed, e_N=eN, e_F=eF, order=case.get("order", "12"))
     s, con = b["system"], b["contact"]
+    # a second, independent contact of the same kind whose frame partner sits elsewhere: it is evaluated at the same
+    # (t, q) immediately before every state of the contact under test (objects must not share state)
+    twin = None
+    if any(kd.startswith("FR") for kd in case["pair"]):
+        twin = sc.build_s2s(tuple(case["pair"]), (r1, r2), case["mu"], sep, seed + 3, e_N=eN, e_F=eF, shift=[0.4, -0.7, 0.5])["system"]
     sub1, sub2 = b["subs"]
     p1, p2 = b["parts"]
     kinds = case["pair"]
@@ -441,6 +450,14 @@ def _check_s2s(case, R):
             continue
         R.stats["n_states"] += 1
         qloc = lambda qq: qq[con.qDOF]
+        if twin is not None:
+            try:
+                uz = np.zeros(twin.nu)
+                twin.g_N(t, q), twin.g_N_dot(t, q, uz), twin.W_N(t, q), twin.g_N_q(t, q)
+                if case["mu"] > 0:
+                    twin.gamma_F(t, q, uz), twin.W_F(t, q)
+            except Exception:  # the twin is only a disturbance
+                pass
 
         def kin(tt, qq, u):
             """reference: n, dist, v_c1, v_c2, omega1, omega2, v_rel of the touching material points"""
